@@ -538,6 +538,41 @@ func main() {
 		c.NonTrivial()
 	})
 
+	// a cover that is refused leaves nothing behind: after an open ring has been rejected (or has been covered, if the
+	// library accepts it), the cover of a valid polygon is what it was before
+	r.Explore("after-a-rejected-ring", fmt.Sprintf("regions x 4 zooms x %d catalogue polygons x 3 open rings (2, 3 and 4 vertices, first != last) given to Ring / Polygon / Geometry in between: the polygon's cover before and after are the same set, without error", len(cat)+1), mc.Opts{MaxDev: -1, Split: 3}, func(c *mc.Ctx) {
+		ri := c.Choose(len(regions))
+		z := maptile.Zoom(regions[ri].zf + c.Choose(4))
+		L := lat[ri]
+		ring := func(idx []int, close bool) orb.Ring {
+			var o orb.Ring
+			for _, i := range idx {
+				o = append(o, L[i])
+			}
+			if close {
+				o = append(o, o[0])
+			}
+			return o
+		}
+		k := c.Choose(len(cat) + 1)
+		var valid orb.Polygon
+		if k == len(cat) {
+			valid = orb.Polygon{ring(cat[0], true), ring(cat[1], true)}
+		} else {
+			valid = orb.Polygon{ring(cat[k], true)}
+		}
+		open := ring([][]int{{0, 24}, {0, 4, 24}, {1, 23, 21, 3}}[c.Choose(3)], false)
+		before, err0 := tilecover.Polygon(valid.Clone(), z)
+		var errs [3]error
+		_, errs[0] = tilecover.Ring(open.Clone(), z)
+		_, errs[1] = tilecover.Polygon(orb.Polygon{open.Clone()}, z)
+		_, errs[2] = tilecover.Geometry(orb.Collection{open.Clone()}, z)
+		after, err1 := tilecover.Polygon(valid.Clone(), z)
+		if err0 != nil || err1 != nil || fmt.Sprint(tiles(before)) != fmt.Sprint(tiles(after)) {
+			c.Failf("polygon-cover", "cover of %v at zoom %d: %d tiles (%v) before and %d tiles (%v) after covering the open ring %v (which returned %v)", valid, z, len(before), err0, len(after), err1, open, errs)
+		}
+		c.NonTrivial()
+	})
 	// long oblique segments: 65..1000 tiles across at zoom 7..16, away from the equator, in several directions. The
 	// mercator image of a segment is the straight tile-space segment between the projected ends, however long it is.
 	oblSpans := []float64{65, 130, 300}
